@@ -54,7 +54,11 @@ func NewWaiter(d Diode, opts ...WaiterConfigOption) *Waiter {
 // to wake up any readers.
 func (w *Waiter) Set(data GenericDataType) {
 	w.Diode.Set(data)
+	// Broadcast under the mutex: Next holds it from its failed TryNext until it
+	// is parked in Wait, so the wake-up cannot fall into that window and be lost.
+	w.mu.Lock()
 	w.c.Broadcast()
+	w.mu.Unlock()
 }
 
 // Next returns the next data point on the wrapped diode. If there is not any
